@@ -17,7 +17,7 @@ from ..tlaparse import to_json, to_tla
 SELF = 'KT1BEqzn5Wx8uJrZNvuS9DVHmLvG9td3fDLi'
 KH = 'tz1KqTpEZ7Yob7QbPE4Hy4Wo8fHG8LhKxZSx'
 TERMINAL = ('done', 'failed', 'stuck', 'badend', 'rejected')
-INVARIANTS = ['EntrypointIsWrapping', 'StepwiseIsWhole', 'TypeSafe', 'NoncesAreEmissionRanks', 'ResultOK', 'DoneIff',
+INVARIANTS = ['EntrypointIsWrapping', 'OnlyNamedDeviation', 'StepwiseIsWhole', 'TypeSafe', 'NoncesAreEmissionRanks', 'ResultOK', 'DoneIff',
               'DoneMeansWellTyped', 'UncheckedMeansIllTyped']
 
 MC = """---- MODULE ContractRun_MC ----
@@ -39,8 +39,8 @@ CONSTANTS Fams <- FamsV
 {invs}
 """
 # family -> (MaxLen, MaxStack)
-QUICK = {'view': (4, 3), 'main': (5, 3), 'ops': (6, 3), 'dflt': (4, 3), 'nest': (4, 3), 'plain': (5, 3), 'bigmap': (4, 3)}
-THOROUGH = {'view': (6, 3), 'main': (6, 3), 'ops': (7, 4), 'dflt': (5, 3), 'nest': (5, 3), 'plain': (7, 3), 'bigmap': (6, 3)}
+QUICK = {'rootann': (3, 3), 'view': (4, 3), 'main': (5, 3), 'ops': (6, 3), 'dflt': (4, 3), 'nest': (4, 3), 'plain': (5, 3), 'bigmap': (4, 3)}
+THOROUGH = {'rootann': (4, 3), 'view': (6, 3), 'main': (6, 3), 'ops': (7, 4), 'dflt': (5, 3), 'nest': (5, 3), 'plain': (7, 3), 'bigmap': (6, 3)}
 
 
 _state = re.compile(r'^State \d+:.*$', re.M)
@@ -239,7 +239,7 @@ class Contract:
     def arg_forms(self, st):
         """(Micheline, Python object) of the argument"""
         sub = (self.tree if st['epname'] == 'v' else None) if self.fam == 'view' else resolve(self.tree, st['epname'])
-        if sub is not None and st['phase'] != 'rejected':
+        if sub is not None and fits(strip(sub), st['argv']):
             t = strip(sub)
             return terms.value_json(t, st['argv']), (py_plain(t, st['argv']) if sub[0] == 'leaf' else py_param(sub, st['argv']))
         return raw_json(st['argv']), py_any(st['argv'])
@@ -316,6 +316,17 @@ class Contract:
         return got
 
 
+def fits(t, v):
+    """the argument has the shape of the type (only decides how the harness writes it down)"""
+    if t[0] in ('int', 'nat'):
+        return v[0] == 'i'
+    if t[0] == 'string':
+        return v[0] == 's'
+    if t[0] == 'or':
+        return v[0] in ('l', 'r') and fits(t[1] if v[0] == 'l' else t[2], v[1])
+    return False
+
+
 def strip(tree):
     return tree[2] if tree[0] == 'leaf' else ('or', strip(tree[2]), strip(tree[3]))
 
@@ -349,6 +360,13 @@ def check_state(ctx, contract, st, stats):
         got = getattr(contract, 'route_' + route)(st, begin) if route == 'S' else getattr(contract, 'route_' + route)(st)
         ctx.replayed += 1
         bad = compare(route, want, got)
+        if st['deviant']:
+            # the model follows the code here (ContractRun!DefaultOfAnnotatedRoot); the protocol would run the call
+            if got['status'] == 'error' and got['stage'] in ('parameter', None):
+                stats['default_refused'] += 1
+            else:
+                ctx.skip('entrypoint `default` of a parameter with an annotated root is accepted (the defect modelled as coded is gone)')
+            continue
         if bad:
             ctx.mismatch('X05:%s:%s:%s' % (route, st['phase'], bad[0]),
                          'contract:\n%s\nentrypoint %s argument %s storage %s (route %s)\n%s' % (
@@ -367,7 +385,7 @@ def check_state(ctx, contract, st, stats):
 def run(ctx):
     fams = QUICK if ctx.quick else THOROUGH
     ctx.rule = ('families %s (MaxLen, MaxStack): parameter or(int %%a, string %%b) [main, ops, bigmap], or(int %%default, string %%b) [dflt], '
-                'or(or %%c (string %%b) (int %%d), or(int %%a, string %%e)) [nest], int [plain]; storage int / pair int string [plain] / big_map nat int [bigmap]; '
+                'or(or %%c (string %%b) (int %%d), or(int %%a, string %%e)) [nest], or %%top (int %%a) (string %%b) [rootann], int [plain]; storage int / pair int string [plain] / big_map nat int [bigmap]; '
                 'view "v" string int over storage int [view: instantiate_view / execute_view / ret]; '
                 'every program over the family alphabet up to MaxLen top-level instructions x every entrypoint name (and an unknown one) '
                 'x every argument (and an ill-typed one) x every storage' % json.dumps(fams))
@@ -388,7 +406,7 @@ def run(ctx):
         phases[st['phase']] = phases.get(st['phase'], 0) + 1
     if not phases.get('done') or not phases.get('failed') or not phases.get('stuck') or not phases.get('badend') or not phases.get('rejected'):
         raise RuntimeError('vacuity: terminal phases reached: %s' % phases)
-    stats = {'no_nonce': 0, 'unchecked_done': 0}
+    stats = {'no_nonce': 0, 'unchecked_done': 0, 'default_refused': 0}
     for (fam, prog), sts in sorted(groups.items(), key=lambda kv: repr(kv[0])):
         tree, stype = contracts[fam]
         contract = Contract(fam, tree, stype, prog)
@@ -403,6 +421,9 @@ def run(ctx):
     print('INFO X05: %d programs, terminal states %s' % (len(groups), json.dumps(phases, sort_keys=True)))
     print('INFO X05: deviation as coded (ContractRun!StepUnchecked): %d runs of statically ill-typed contracts succeeded - the interpreter '
           'checks instructions against the run-time stack only, never the script' % stats['unchecked_done'])
+    ctx.notes.append('defect (as coded, DefaultOfAnnotatedRoot): %d calls of entrypoint `default` refused because the root of the parameter type is annotated' % stats['default_refused'])
+    print('INFO X05: defect as coded (ContractRun!DefaultOfAnnotatedRoot): %d calls of entrypoint `default` were refused ("unexpected entrypoint") because the '
+          'root of the parameter type is annotated (parameter (or %%top ..)); the protocol runs them on the whole parameter' % stats['default_refused'])
     print('INFO X05: deviation: internal operations carry no `nonce` (%d results with operations); the model numbers them by emission rank' % stats['no_nonce'])
 
 
@@ -410,7 +431,7 @@ def replay(ctx, rep):
     case = rep['case']
     st = {k: tuplify(v) for k, v in case['state'].items()}
     contract = Contract(st['fam'], tuplify(case['tree']), tuplify(case['stype']), st['prog'])
-    check_state(ctx, contract, st, {'no_nonce': 0, 'unchecked_done': 0})
+    check_state(ctx, contract, st, {'no_nonce': 0, 'unchecked_done': 0, 'default_refused': 0})
     return ctx.finish()
 
 
